@@ -318,6 +318,41 @@ example : durOf (({ Net.new .random .spec with table := { Table.empty Kind.rando
 example : ((Table.empty Kind.maternal.keys).matAddPairsAt [0] [3] [3] none 4).toOption.map (fun t => (t.start, t.stop, t.dur)) =
     some ([4], [7], [3]) := by decide +kernel
 
+/-! ### Durations given as time parameters -/
+
+/-- **Time-parameter durations (partial).** `RandomNet(dur=ss.years(D))`: the column holds `D / dt` timesteps, which the
+    code counts down by `dt` per update.  When the network's timestep is 1 this is the stated lifetime: present after `k`
+    updates iff `k = 0 ∨ k < ⌈D/dt⌉`. -/
+theorem C14_timepar_duration_partial (dt : Rat) (hdt : dt = 1) (a b : Nat) (D : Rat) (als : List (Nat → Bool))
+    (h : ∀ al ∈ als, al a = true ∧ al b = true) :
+    ageRowL (stepsCountdown .asis dt) als (a, b, timeparValue D dt) =
+      if als.length = 0 ∨ (als.length : Int) < (D / dt).ceil then some (a, b, timeparValue D dt - als.length * dt) else none := by
+  subst hdt
+  have := C14_timed_edges_own_dt 1 (by decide) a b (timeparValue D 1) als h
+  simpa [stepsCountdown, timeparValue] using this
+
+/-- **Time-parameter durations (counterexample).** `dur = ss.years(2)` with `dt = 1/2`: the column holds 4 (timesteps) and
+    loses 1/2 per update, so the edge stated to last 2 years = 4 updates is still there after 4, 5, 6 and 7 updates and
+    ends only after 8 (= 4 years). -/
+theorem C14_timepar_duration_counterexample :
+    (List.range 10).map (fun k => (ageRowL (stepsCountdown .asis (1 / 2)) (List.replicate k (fun _ => true)) (0, 1, timeparValue 2 (1 / 2))).isSome) =
+      [true, true, true, true, true, true, true, true, false, false] ∧
+    ¬ ((4 : Int) < ((2 : Rat) / (1 / 2)).ceil) := by
+  constructor <;> decide +kernel
+
+/-- **Time-parameter durations (spec).** Counting a timestep-valued duration down by ONE per update gives the stated
+    lifetime for every timestep: present after `k` updates iff `k = 0 ∨ k < ⌈D/dt⌉`. -/
+theorem C14_timepar_duration_spec (dt : Rat) (a b : Nat) (D : Rat) (als : List (Nat → Bool))
+    (h : ∀ al ∈ als, al a = true ∧ al b = true) :
+    ageRowL (stepsCountdown .spec dt) als (a, b, timeparValue D dt) =
+      if als.length = 0 ∨ (als.length : Int) < (D / dt).ceil then some (a, b, timeparValue D dt - als.length) else none := by
+  have := C14_timed_edges_own_dt 1 (by decide) a b (timeparValue D dt) als h
+  simpa [stepsCountdown, timeparValue] using this
+
+/-- the repaired countdown on the counterexample's input: gone after exactly 4 updates -/
+example : (List.range 6).map (fun k => (ageRowL (stepsCountdown .spec (1 / 2)) (List.replicate k (fun _ => true)) (0, 1, timeparValue 2 (1 / 2))).isSome) =
+    [true, true, true, true, false, false] := by decide +kernel
+
 /-! ### Static networks -/
 
 /-- **Static.** After any history the edge list of a StaticNet is a sub-list of the initial one … -/
